@@ -791,6 +791,10 @@ class Executor:
             if xv is UNDEF or yv is UNDEF:
                 env[ins.res] = UNDEF
                 return None
+            if isinstance(xv, tuple) and xv[0] == 'vec' and isinstance(yv, tuple) and yv[0] == 'vec':
+                env[ins.res] = ('vec', [UNDEF if (p_ is UNDEF or q_ is UNDEF) else mk(op, 'i1', pred, p_, q_)
+                                        for p_, q_ in zip(xv[1], yv[1])])
+                return None
             if op == 'fcmp' and pred in ('true', 'false'):
                 env[ins.res] = ic('i1', 1 if pred == 'true' else 0)
                 return None
@@ -805,6 +809,9 @@ class Executor:
             y = self.operand(st, fr, t2, v2)
             if tm.is_ic(c):
                 env[ins.res] = x if c.args[0] else y
+                return None
+            if isinstance(c, tuple) and c[0] == 'vec':
+                env[ins.res] = ('vec', [mk('select', p_.ty, cc, p_, q_) for cc, p_, q_ in zip(c[1], x[1], y[1])])
                 return None
             if isinstance(x, T) and isinstance(y, T):
                 env[ins.res] = mk('select', x.ty, c, x, y)
@@ -874,6 +881,9 @@ class Executor:
         if op == 'condbr':
             (ct, cv), la, lb = a
             c = self.operand(st, fr, ct, cv)
+            if isinstance(c, T) and not tm.is_ic(c) and c.id not in st.pcset and tm.negate(c).id not in st.pcset \
+                    and self.try_merge(st, fr, c, la, lb):
+                return None
             return self.fork_branch(st, c, lambda s: self.jump(s, s.frames[-1], la),
                                     lambda s: self.jump(s, s.frames[-1], lb))
         if op == 'switch':
@@ -976,6 +986,103 @@ class Executor:
             env[ins.res] = self.fresh_garbage(vt) if v is UNDEF else v
             return None
         raise Unsupported('instruction: %s' % ins.text)
+
+    # ---------------------------------------------------------------- if-conversion of pure triangles/diamonds
+    PURE_OPS = set(['fneg', 'icmp', 'fcmp', 'select', 'getelementptr', 'extractvalue', 'insertvalue', 'extractelement',
+                    'insertelement', 'shufflevector', 'freeze', 'load', 'bitcast', 'zext', 'sext', 'trunc', 'fpext',
+                    'fptrunc', 'sitofp', 'uitofp', 'fptosi', 'fptoui', 'ptrtoint', 'inttoptr']) | tm.COMM | \
+        set(['sub', 'shl', 'lshr', 'ashr', 'fsub', 'fdiv', 'frem'])
+    PURE_CALLS = ('_ZSt11_Hash_bytesPKvmm', '_ZNKSt4hashIeEclEe')
+
+    def arm_succ(self, fr, lbl):
+        """successor label if block lbl is a side-effect free straight-line arm, else None"""
+        blk = fr.func.blocks[lbl]
+        if not blk or blk[0].op == 'phi' or len(blk) > 40:
+            return None
+        last = blk[-1]
+        if last.op == 'br':
+            body, succ = blk[:-1], last.a[0]
+        elif last.op == 'call' and last.a[3] is not None:
+            body, succ = blk, last.a[3]      # invoke of a pure function: its normal destination
+        else:
+            return None
+        for ins in body:
+            if ins.op in self.PURE_OPS:
+                continue
+            if ins.op == 'call' and ins.a[1][0] == 'glob' and (ins.a[3] is None or ins is last):
+                nm = ins.a[1][1]
+                if nm in LIBM or nm in self.PURE_CALLS or nm.startswith(IGNORED_INTRINSICS):
+                    continue
+            return None
+        return succ
+
+    def try_merge(self, st, fr, c, la, lb):
+        sa = self.arm_succ(fr, la)
+        sb = self.arm_succ(fr, lb)
+        nc = tm.negate(c)
+        if sa is not None and sa == lb:
+            arms, join, direct = [(la, c)], lb, nc
+        elif sb is not None and sb == la:
+            arms, join, direct = [(lb, nc)], la, c
+        elif sa is not None and sa == sb:
+            arms, join, direct = [(la, c), (lb, nc)], sa, None
+        else:
+            return False
+        snap = st.clone()
+        nub = len(st.ub)
+        here = fr.block
+        try:
+            for lbl, cond in arms:
+                ab = fr.func.blocks[lbl]
+                for ins in (ab[:-1] if ab[-1].op == 'br' else ab):
+                    if ins.op == 'call' and ins.a[3] is not None:
+                        from .parse import Instr
+                        ins = Instr(ins.res, 'call', (ins.a[0], ins.a[1], ins.a[2], None, None), ins.text)
+                    r = self.step(st, fr, ins)
+                    if r is not None or st.status is not None or len(st.ub) > nub or st.frames[-1] is not fr:
+                        raise Unsupported('arm not mergeable')
+            jb = fr.func.blocks[join]
+            vals = []
+            nphi = 0
+            for ins in jb:
+                if ins.op != 'phi':
+                    break
+                nphi += 1
+                t, inc = ins.a
+                got = {}
+                for v_, l in inc:
+                    if l == here or any(l == lbl for lbl, _ in arms):
+                        got[l] = self.operand(st, fr, t, v_)
+                parts = []
+                for lbl, cond in arms:
+                    if lbl not in got:
+                        raise Unsupported('phi lacks arm')
+                    parts.append((cond, got[lbl]))
+                if direct is not None:
+                    if here not in got:
+                        raise Unsupported('phi lacks direct edge')
+                    parts.append((direct, got[here]))
+                (c1, v1), (c2, v2) = parts
+                if v1 is v2 or (not isinstance(v1, T) and v1 == v2):
+                    vals.append((ins.res, v1))
+                elif isinstance(v1, T) and isinstance(v2, T):
+                    vals.append((ins.res, mk('select', v1.ty, c1, v1, v2)))
+                else:
+                    raise Unsupported('phi of non-terms')
+        except Unsupported:
+            st.__dict__.update(snap.__dict__)
+            return False
+        for r_, v_ in vals:
+            fr.env[r_] = v_
+        v = fr.visits.get(join, 0) + 1
+        if v > MAX_BLOCK_VISITS:
+            raise Unsupported('loop bound exceeded at %s' % join)
+        fr.visits[join] = v
+        fr.prev = arms[-1][0]
+        fr.block = join
+        fr.ip = nphi
+        self.merged = getattr(self, 'merged', 0) + 1
+        return True
 
     def insert(self, v, e, idx):
         if not idx:
